@@ -131,7 +131,30 @@ func (c09) Gen(tier string, seed int64) []fw.Unit {
 			us = append(us, u)
 		}
 	}
+	// every integer factor up to a bound, exact and with slack, for a 1D and two small 2D sources
+	fmax1, fmax2 := int64(400), int64(130)
+	if tier == "thorough" {
+		fmax1, fmax2 = 1200, 260
+	}
+	for _, s := range []Req{{Fam: "ean", S: []byte("5512345"), Scheme: -1}, {Fam: "datamatrix", S: []byte("1"), Scheme: -1}, {Fam: "aztec", S: []byte("A"), I: []int64{33, -1}, Scheme: 9}} {
+		fm := fmax2
+		if s.Fam == "ean" {
+			fm = fmax1
+		}
+		for lo := int64(1); lo <= fm; lo += 10 {
+			u := s.Unit("scale", "factor-sweep")
+			u.I = append([]int64{3, int64(r.Intn(len(c09Fills))), lo, min64(lo+9, fm)}, u.I...)
+			us = append(us, u)
+		}
+	}
 	return us
+}
+
+func min64(a, b int64) int64 {
+	if a < b {
+		return a
+	}
+	return b
 }
 
 // scaleModel checks one Scale/ScaleWithFill result against the executable model.
@@ -350,6 +373,19 @@ func (p c09) Exec(c *fw.Ctx, u *fw.Unit) {
 			}
 			if w*h <= 400000 {
 				check(src, w, h, fillIdx, "")
+			}
+		}
+	case 3: // factor sweep: sd..depth are the factor range here
+		for f := int(sd); f <= depth; f++ {
+			if dims == 1 {
+				check(src, f*w0, 2, fillIdx, "")
+				check(src, f*w0+f-1, 1, fillIdx, "")
+			} else {
+				check(src, f*w0, f*h0, fillIdx, "")
+				check(src, f*w0+f-1, f*h0+1, fillIdx, "")
+				if f%7 == 0 {
+					check(src, f*w0+3, (f+1)*h0, fillIdx, "")
+				}
 			}
 		}
 	case 2: // chains
